@@ -311,8 +311,21 @@ func (ch *Chain) Exec(e M) Outcome {
 			panic(ModelError{fmt.Sprintf("specification says proofOK=%v, independent evaluator says %v for %s", want, cb.ProofOK, absx.Canon(e))})
 		}
 		w := absx.Map(e["w"])
-		if absx.Str(e["bad"]) == "version" {
+		switch absx.Str(e["bad"]) { // byte fields of a wrong length; the longer ones keep the right bytes as a prefix
+		case "version":
 			cb.Version = []byte{0, 0}
+		case "hash33":
+			cb.BlockHash = append(append([]byte{}, cb.BlockHash...), byte(ch.C.Seed))
+		case "hash31":
+			cb.BlockHash = append([]byte{}, cb.BlockHash[:31]...)
+		case "root33":
+			cb.StorageRoot = append(append([]byte{}, cb.StorageRoot...), 0x00)
+		case "proof33":
+			if len(cb.Proofs) > 0 {
+				cb.Proofs[0] = append(append([]byte{}, cb.Proofs[0]...), 0x00)
+			} else {
+				cb.Version = []byte{0, 0}
+			}
 		}
 		r := deliver(&ophosttypes.MsgFinalizeTokenWithdrawal{Sender: signer, BridgeId: b(), OutputIndex: uint64(absx.Int(e["out"])),
 			WithdrawalProofs: cb.Proofs, From: c.Addr(absx.Str(w["from"])), To: c.Addr(absx.Str(w["to"])), Sequence: uint64(absx.Int(w["seq"])),
